@@ -89,7 +89,8 @@ func (c *Ctx) genTree() treeSpec {
 	n := 3 + c.R.Intn(8)
 	for i := 0; i < n; i++ {
 		d := dirs[c.R.Intn(len(dirs))]
-		name := fmt.Sprintf("t%d.goht", i)
+		// file names that start like the directory names the walk skips (partials, drafts) are ordinary files
+		name := fmt.Sprintf("%st%d.goht", []string{"", "", "", "_", "."}[c.R.Intn(5)], i)
 		p := filepath.Join(d, name)
 		src := c18Templates[c.R.Intn(len(c18Templates))]
 		t.files[p] = src
@@ -106,7 +107,7 @@ func (c *Ctx) genTree() treeSpec {
 	// orphans and unrelated files
 	for i := 0; i < 1+c.R.Intn(3); i++ {
 		d := dirs[c.R.Intn(len(dirs))]
-		t.files[filepath.Join(d, fmt.Sprintf("orphan%d.goht.go", i))] = "package orphan\n"
+		t.files[filepath.Join(d, fmt.Sprintf("%sorphan%d.goht.go", []string{"", "", "_", "."}[c.R.Intn(4)], i))] = "package orphan\n"
 	}
 	for i := 0; i < 1+c.R.Intn(3); i++ {
 		d := dirs[c.R.Intn(len(dirs))]
